@@ -554,6 +554,10 @@ func (w *World) genBridgeOps(r *Rand) []*ELOp {
 				kind = pick(r, unpayableKinds)
 			}
 			amount := uint64(20000 + r.Intn(5_0000_0000))
+			if r.Chance(0.12) {
+				// whales: amounts whose value in wei (x 1e10) does not fit 64 bits
+				amount = pick(r, []uint64{18_4467_4407, 18_4467_4408, 20_0000_0000, 184_4674_4074, 1000_0000_0000, 21_000_000_0000_0000})
+			}
 			price := uint64(1 + r.Intn(60))
 			if r.Chance(0.05) {
 				price = 0
